@@ -118,7 +118,7 @@ def passLoop {α} [Inhabited α] (mrg : α → α → Bool → α) (stepsize dif
   | f+1, slots, i, elements =>
     if i = back then (slots, elements)
     else
-      let merged := mrg (slotGet slots i) (slotGet slots (i + diff)) (decide (stepsize > 0))
+      let merged := mrg (slotGet slots i) (slotGet slots (i + diff)) (decide (stepsize > 0) == Gen.C04.orderWhenForward)
       passLoop mrg stepsize diff back f (slotSet slots i merged) (i + stepsize) (elements - 1)
 
 structure Sched where
@@ -139,14 +139,14 @@ def schedLoop {α} [Inhabited α] (mrg : α → α → Bool → α) : Nat → Li
       let tmp := st.back
       let back := st.front - (if oddNew then 0 else st.stepsize)
       let front := tmp - (if st.oddOld then 0 else st.stepsize)
-      schedLoop mrg f r.1 ⟨front, back, st.stepsize * (-2), st.diff * (-2), r.2, oddNew⟩
+      schedLoop mrg f r.1 ⟨front, back, st.stepsize * Gen.C04.stepMul, st.diff * Gen.C04.diffMul, r.2, oddNew⟩
     else (slots, st)
 
 /-- whole schedule for one action: returns what ends up in `projs[a][0]` -/
 def mergeSchedule {α} [Inhabited α] (mrg : α → α → Bool → α) (slots : List α) : α :=
   let O := slots.length
   let oddOld := O % 2 == 1
-  let st : Sched := ⟨0, (O : Int) - (if oddOld then 1 else 0), 2, 1, O, oddOld⟩
+  let st : Sched := ⟨0, (O : Int) - (if oddOld then 1 else 0), Gen.C04.stepsize0, Gen.C04.diff0, O, oddOld⟩
   let r := schedLoop mrg O slots st
   slotGet r.1 r.2.front
 
@@ -157,6 +157,22 @@ def scheduleOrder (O : Nat) : List Nat := mergeSchedule mrgSym ((List.range O).m
 
 /-- concrete run on VLists with a pruning step `pr` after every cross-sum -/
 def mrgVL (pr : VList → VList) (a : Nat) (x y : VList) (order : Bool) : VList := pr (crossSum x y a order)
+
+/-! ## IncrementalPruning::operator(): the outer loops (pruning = parameter) -/
+
+/-- `makeValueFunction(S)`: one horizon-0 list holding the zero entry -/
+def zeroVF (S : Nat) : VF := [[⟨List.replicate S 0, 0, []⟩]]
+
+/-- one timestep: per action prune every projection list, merge them by the schedule (crossSum + prune at each
+    merge), concatenate the per-action results, prune once more -/
+def ipStep (m : Pomdp) (pr : VList → VList) (prev : VList) : VList :=
+  pr ((List.range m.A).flatMap (fun a =>
+    mergeSchedule (mrgVL pr a) ((List.range m.O).map (fun o => pr (project m prev a o)))))
+
+/-- `h` timesteps (the tolerance test can only stop earlier, i.e. return a prefix) -/
+def ipRun (m : Pomdp) (pr : VList → VList) : Nat → VF
+  | 0 => zeroVF m.S
+  | h+1 => ipRun m pr h ++ [ipStep m pr (vlist (ipRun m pr h) h)]
 
 /-! ## crossSumBestAtBelief (row form): per observation take the best projection at `b`, add values, copy its link -/
 
